@@ -548,7 +548,7 @@ partial def optimize : PNode → Except PErr (Node Float)
   | .num x => .ok (.num x)
   | .bool b => .ok (.bool b)
   | .null => .ok .null
-  | .regex p => .ok (.regex p)
+  | .regex p => .ok (.regex p [])
   | .var n => .ok (.var n)
   | .name v => .ok (.path [.name v] false)
   | .neg rhs => do
